@@ -54,7 +54,7 @@ class EECC(Network):
             if clique_size > self._m0:
                 indxs.append(c)
                 # sort by first element of sublist
-                for nc in sorted(combinations(C[c], self._m0)):
+                for nc in combinations(sorted(C[c]), self._m0):
                     C.append(nc)
             else:
                 C[c] = sorted(C[c])
@@ -68,9 +68,7 @@ class EECC(Network):
         for i, c in enumerate(C):
             C[i] = sorted(c)
 
-        return sorted(
-            C, key=lambda x: (-len(x), x[0], x[1]) if len(x) > 1 else (-len(x), x[0], 0)
-        )
+        return sorted(C, key=lambda x: (-len(x), x))
 
     def compute_scores(
         self, C: list, EC: list, ord: list, r: list, indexes: list
